@@ -171,6 +171,42 @@ PROPS = {
         ],
         "assumptions": ASSUME_COMMON,
     },
+    "C12": {
+        "level": "exploration",
+        "design_ref": "§6 C12",
+        "level_text": L_EXPL + "; 3*10^5 (quick) / 10^7 (thorough) in-process to_result() calls and 4*10^4 / 4*10^6 responses of a real server over 16 body types x 8 response kinds x header-collision classes",
+        "level_note": "body equality is judged by an own strict RFC 8259 reader against serde_json::to_value (floats by bit pattern); header legality model is VCHAR/SP/HTAB/obs-text; values with leading/trailing blanks, empty values and illegal declared header values are generated but not classed; an illegal redirect location must be refused by the constructor itself (in process), over the wire only 'no 3xx is sent' is demanded",
+        "technique": "runtime monitoring: reference-model comparison (own status table, own JSON reader, own header-value and override model) of real HttpResponse::to_result() results and of live responses read by a strict raw HTTP/1.1 parser",
+        "engines": [
+            {"name": "c12-inproc", "bin": "vmon_resp", "package": "resp", "floor": (300000, 5000)},
+            {"name": "c12-live", "bin": "vmon_resp", "package": "resp", "floor": (30000, 2000)},
+        ],
+        "assumptions": ASSUME_COMMON,
+    },
+    "C13": {
+        "level": "exploration",
+        "design_ref": "§6 C13",
+        "level_text": L_EXPL + "; the status refinement types are decided exhaustively (all 65 536 u16, all StatusCodes 100..=999, all 3-digit strings); 3*10^5 / 3*10^7 generated errors through into_response; 4*10^4 / 4*10^6 live responses with request-id uniqueness over the whole run",
+        "level_note": "exhaustive only for the status-type part; leak detection searches a unique ASCII marker planted in internal_message in reason phrase, header names/values and body; reserved header names (content-type, content-length, x-request-id) are excluded; uniqueness is 'no repeat within one run'",
+        "technique": "runtime monitoring: contract oracle on HttpError::into_response (every constructor, struct literal, attached headers), exhaustive enumeration of ErrorStatusCode/ClientErrorStatusCode entry points, history monitor over live runs (one x-request-id per response, unique, equal to rqctx.request_id and to request_id in framework error bodies, marker non-leakage)",
+        "engines": [
+            {"name": "c13-inproc", "bin": "vmon_resp", "package": "resp", "floor": (600000, 3000)},
+            {"name": "c13-live", "bin": "vmon_resp", "package": "resp", "floor": (30000, 1500)},
+        ],
+        "assumptions": ASSUME_COMMON,
+    },
+    "C14": {
+        "level": "exploration",
+        "design_ref": "§6 C14",
+        "level_text": L_EXPL + "; 7*10^4 / 4*10^6 issue-accept round trips incl. every token length 496..532, every single-byte substitution/insertion/deletion of 32 / 1024 valid tokens, 13+11 limit strings and malformed tokens over the wire",
+        "level_note": "public surface only (ResultsPage::new, serde_urlencoded::from_str::<PaginationParams>); 'definitely malformed' = wrong or unknown version, wrong shape, base64 of non-JSON, characters outside both base64 alphabets, empty token, over-long; padding variants and all mutations may be refused or yield some selector (never panic/5xx); limits 2^32 and larger, empty and '+5'/'007' numerals may be 4xx or a clamped 200; duplicate page_token keys are not generated",
+        "technique": "runtime monitoring: round-trip and metamorphic oracles (token alone decides the page), own base64url/token builder for hostile tokens, exhaustive single-byte mutation, panic monitor; live limit-clamp model min(n,10000)/100 with handler-entry history check",
+        "engines": [
+            {"name": "c14-inproc", "bin": "vmon_resp", "package": "resp", "floor": (1500000, 600)},
+            {"name": "c14-live", "bin": "vmon_resp", "package": "resp", "floor": (30000, 150)},
+        ],
+        "assumptions": ASSUME_COMMON,
+    },
     "C15": {
         "level": "exploration",
         "design_ref": "§6 C15",
